@@ -168,6 +168,7 @@ def one_sequence(ctx, rng, memo):
     except AssertionError as ex:
         # the stateful interpreter refused a call: the sequence ends here (only accepted sequences are in scope)
         ctx.count('sequence_refused_by_tracker')
+        ser._pi2v_sequence_refused = True      # (a refused call may leave the tracker half-updated: users of the final state must know)
         ctx.note('sequence_refused_example', repr(ex)[:200])
     for k, v in d.counts.items():
         ctx.count(k, v)
